@@ -37,6 +37,8 @@ P.assume("bookkeeping invariant established by reb_simulation_add_variation_* (p
          "N_real <= index and index + N_real <= N; a test-particle set has N_real <= index < N and 0 <= testparticle < N_real; "
          "second order: the same for index_1st_order_a / index_1st_order_b")
 P.assume("the specification is defined: |x_k - x_s|^2 != 0 for every specified pair (instantiated at the visited pair)")
+P.assume("REB_GRAVITY_COMPENSATED: r->gravity_cs holds N_allocated_gravity_cs >= N elements (reb_calculate_acceleration, which "
+         "every caller runs first, reallocates it to N elements)")
 P.assume("softening == 0: reb_calculate_acceleration_var never reads r->softening (see the finding "
          "first_order.softening: with softening != 0 the routine is NOT the derivative of the softened force)")
 P.trust("accumulation rule (DESIGN 3.3): from body contract, frame and iteration-space equality, accumulator_final = "
@@ -497,8 +499,8 @@ def single_pre(c):
 P.assume("test-particle sets: the varied particle vc.testparticle is a test particle of type 0 for the purpose of the "
          "variation: it feels every ACTIVE particle and nothing feels it (the code comment says so); the specified source "
          "set is therefore {s active, s != i} minus the gravity_ignore_terms pairs.  The code sums over every REAL "
-         "particle j < N_real: the spaces agree when all real particles other than i are active "
-         "(N_active == -1 or N_active >= N_real - 1 ... stated as precondition `all_others_active`)")
+         "particle j < N_real: the spaces agree when all real particles other than i are active (precondition "
+         "`tp_precondition`: N_active == N_real, or N_active == N_real - 1 and i is the last real particle)")
 
 
 def tp_precondition(c):
@@ -591,13 +593,13 @@ second_order_full("REB_GRAVITY_COMPENSATED")
 
 
 # ------------------------------------------------------------------------------------------------ findings (expected to FAIL)
+P.assume("FINDING first_order.iterspace_unconditional (kept, fails on the unchanged tree, natively reproduced): without the "
+         "precondition the first-order test-particle nest visits the pair (1,0) when gravity_ignore_terms == 1 and N_active == 1: "
+         "the real force starts that nest at MAX(N_active, starti) = 2 (the pair {0,1} belongs to WHFast's Kepler step in Jacobi "
+         "coordinates), the variational routine starts it at N_active = 1, so the pair {0,1} enters the tangent map twice.  "
+         "Native (tools/repro/C16_whfast_nactive1_variational_double_counts_pair01.py): star + 2 planets, N_active = 1, WHFast, vary(1,'a'), t = 3: d x_1/da = "
+         "-0.5489 by central differences (IAS15's variational particle agrees to 7e-10), WHFast's variational particle gives -39.75")
 first_order_full("REB_GRAVITY_BASIC", restrict=False, name="first_order.iterspace_unconditional")
-"""FINDING (genuine, natively reproduced): without the precondition `agree_precondition` the first-order test-particle
-nest visits the pair (1,0) when gravity_ignore_terms == 1 and N_active == 1: the real force starts that nest at
-MAX(N_active, starti) = 2 (the pair {0,1} belongs to the Kepler step of WHFast in Jacobi coordinates), the variational
-routine starts it at N_active = 1.  The pair {0,1} is then counted twice in the tangent map.
-Native: star + 2 planets, N_active = 1, WHFast (default kernel, Jacobi), vary(1,'a'), integrate to t=3:
-d x_1/da = -0.5489 (central difference, and IAS15 variational agrees to 7e-10) but WHFast variational gives -39.75."""
 
 
 @P.task("first_order.softening", fn=FN, timeout=300)
@@ -605,7 +607,7 @@ def _(v):
     """FINDING (genuine, natively reproduced): the derivative of the SOFTENED pair force (the force the real routine
     uses: r^2 = |d|^2 + softening^2) is not what the routine adds: it never reads r->softening.  Stated as an INSTANCE of
     the body contract at the separation d = (2,3,6), softening = 24 (both square roots rational: 7 and 25), everything
-    else symbolic.  Native: m=1 + m=1e-3 at x=1, vy=1, softening 0.5, IAS15 to t=2: d x_1/d x_1(0) = 1.9312 by central
+    else symbolic.  Native (tools/repro/C16_variational_force_ignores_softening.py): m=1 + m=1e-3 at x=1, vy=1, softening 0.5, IAS15 to t=2: d x_1/d x_1(0) = 1.9312 by central
     differences, variational particle 3.2861 (softening 0: 2.7931 both)."""
     c = setup(v, "REB_GRAVITY_BASIC", 1, False, soft_zero=False)
     v.assume(agree_precondition(c))
